@@ -37,6 +37,10 @@ tree('T5', [Opt('sec', 'Sec', '', sub=[Opt('int', 'Xa', '', 1)]), Opt('sec', 'mm
 tree('T6', [Opt('sec', 'm', 'M', sub=[Opt('int', '0', '', 1), Opt('int', 'x', '', 2)]), Opt('int', '1', '', 5), Opt('str', 'str', '', b'v'),
             Opt('sec', 'mt', 'MT', sub=[Opt('int', 'x', '', 1)])], b'm { 0 = 3 } mt 0 { x = 5 } mt 1 { x = 6 }')
 
+# single sections that carry a title (TITLE without MULTI, created by the text): still single - a qualifier never resolves
+tree('T7', [Opt('sec', 'box', 'TN', sub=[Opt('int', 'x', '', 1)]), Opt('sec', 'out', 'M', sub=[Opt('sec', 'box', 'TN', sub=[Opt('int', 'x', '', 1)]), Opt('int', 'y', '', 2)]),
+            Opt('int', 'i', '', 5)], b'box a { x = 3 } out { box a { x = 4 } } out { y = 6 }')
+
 
 def model_tree(tid):
     sch, text, flags = TREES[tid]
